@@ -58,6 +58,8 @@ pub enum Op {
     AddCf(u32, String, String),
     /// sheet, range, formula, fill colour (a rule whose format differs from AddCf's bold)
     AddCfFill(u32, String, String, String),
+    /// sheet, range, formula: a rule whose format is entirely empty (Dxf::default())
+    AddCfPlain(u32, String, String),
     UpdateCf(u32, u32, String, String),
     DeleteCf(u32, u32),
     RaiseCf(u32, u32),
@@ -210,6 +212,7 @@ impl Op {
             DeleteLink(..) => "DeleteLink",
             AddCf(..) => "AddCf",
             AddCfFill(..) => "AddCfFill",
+            AddCfPlain(..) => "AddCfPlain",
             UpdateCf(..) => "UpdateCf",
             DeleteCf(..) => "DeleteCf",
             RaiseCf(..) => "RaiseCf",
@@ -357,6 +360,11 @@ impl Op {
                     CfRuleInput::Formula { formula: f.clone(), format: dxf, stop_if_true: false },
                 )
             }
+            AddCfPlain(s, range, f) => um.add_conditional_formatting(
+                *s,
+                range,
+                CfRuleInput::Formula { formula: f.clone(), format: ironcalc_base::types::Dxf::default(), stop_if_true: false },
+            ),
             UpdateCf(s, i, range, f) => um.update_conditional_formatting(*s, *i, range, cf_rule(f)?),
             DeleteCf(s, i) => um.delete_conditional_formatting(*s, *i),
             RaiseCf(s, i) => um.raise_conditional_formatting_priority(*s, *i),
